@@ -6,6 +6,7 @@ import (
 	"bytes"
 	"fmt"
 	"io"
+	"strconv"
 	"strings"
 
 	"wa-lang.org/wa/internal/wat/ast"
@@ -1349,11 +1350,11 @@ func (p *wat2cWorker) buildFunc_ins(w io.Writer, fn *ast.Func, stk *valueTypeSta
 	case token.INS_F32_CONST:
 		i := i.(ast.Ins_F32Const)
 		sp0 := stk.Push(token.F32)
-		fmt.Fprintf(w, "%sR%d.f32 = %f; // %s\n", indent, sp0, i.X, insString(i))
+		fmt.Fprintf(w, "%sR%d.f32 = %sf; // %s\n", indent, sp0, strconv.FormatFloat(float64(i.X), 'x', -1, 32), insString(i))
 	case token.INS_F64_CONST:
 		i := i.(ast.Ins_F64Const)
 		sp0 := stk.Push(token.F64)
-		fmt.Fprintf(w, "%sR%d.f64 = %f; // %s\n", indent, sp0, i.X, insString(i))
+		fmt.Fprintf(w, "%sR%d.f64 = %s; // %s\n", indent, sp0, strconv.FormatFloat(i.X, 'x', -1, 64), insString(i))
 	case token.INS_I32_EQZ:
 		sp0 := stk.Pop(token.I32)
 		ret0 := stk.Push(token.I32)
